@@ -61,12 +61,12 @@ func lexString(ls []lex) string {
 var exprKeywords = []string{"AND", "OR", "NOT", "XOR", "LIKE", "IS", "IN", "NULL", "TRUE", "FALSE"}
 var exprMultiSymbols = []string{"<=", ">=", "<>", "!=", ">>", "<<"}
 var genericMultiSymbols = []string{"<>", "<=", ">="}
-var exprSingleSymbols = []string{"(", ")", "[", "]", "+", "-", "*", "/", "%", "^", "=", "<", ">", ",", "!", "@", "$", "&", "|", "~", ";", ":", "?", "{", "}", "\\", "`", "#", ".", "ш", "€", "Ω", "中", "￾", "\u00a0", "\u0085", "\u007f", "\u2028", "\u2029", "\u3000", "\u00bf"}
+var exprSingleSymbols = []string{"(", ")", "[", "]", "+", "-", "*", "/", "%", "^", "=", "<", ">", ",", "!", "@", "$", "&", "|", "~", ";", ":", "?", "{", "}", "\\", "`", "#", ".", "ш", "€", "Ω", "中", "￾", "\u00a0", "\u0085", "\u007f", "\u2028", "\u2029", "\u3000", "\u00bf", "\u0663", "\uff15"}
 var genericSingleSymbols = []string{"(", ")", "[", "]", "+", "-", "*", "/", "%", "^", "=", "<", ">", ",", "!", "@", "$", "&", "|", "~", ";", ":", "?", "{", "}", "\\", "`", ".", "_", "¡", "§", "¿", "\u00a0", "\u0085", "\u007f"}
 
 var latinStart = []string{"a", "b", "x", "Z", "Q", "é", "Ü", "ÿ", "À"}
 var wordCont = []string{"a", "k", "Z", "0", "7", "_", "é", "ÿ", "ш", "€", "中", "￾", "Ā"}
-var nonLatinStart = []string{"ш", "Ж", "€", "Ω", "中", "Ā", "￾", "\u2028", "\u3000", "\u212a"}
+var nonLatinStart = []string{"ш", "Ж", "€", "Ω", "中", "Ā", "￾", "\u2028", "\u3000", "\u212a", "\u0663", "\u096b", "\uff15"}
 
 type lexGen struct {
 	kind string // "expression" | "generic"
@@ -139,6 +139,15 @@ func (g *lexGen) number() lex {
 	sign := ""
 	if g.kind == "generic" && r.Chance(1, 3) {
 		sign = "-"
+	}
+	if r.Chance(1, 20) {
+		// very long digit runs are still integers
+		n := 15 + r.Intn(30)
+		b := make([]byte, n)
+		for i := range b {
+			b[i] = byte('0' + r.Intn(10))
+		}
+		return lex{tokenizers.Integer, sign + string(b)}
 	}
 	switch r.Intn(6) {
 	case 0, 1:
@@ -252,6 +261,9 @@ func (g *lexGen) needSep(a, b lex) bool {
 	case tokenizers.Word, tokenizers.Keyword, tokenizers.Integer, tokenizers.Float:
 		if a.Type == tokenizers.Word && strings.HasPrefix(a.Text, "\"") {
 			return fb == '"'
+		}
+		if (a.Type == tokenizers.Integer || a.Type == tokenizers.Float) && fb >= 0x100 {
+			return false // a number ends at the first character that is not an ASCII digit, dot or exponent
 		}
 		if isWordish(fb) || fb == '.' {
 			return true
